@@ -51,8 +51,11 @@ VOR_POINTS = [
 RULE = ("histories = one cell space (Moore/von Neumann grid in 1-3 dimensions, hex grid, network, Voronoi; dims <= 3x3, "
         "torus flag, capacity None/1/2, 0-2 extra int property layers) or one AgentSet; 0-8 operations before the copy "
         "(moves/placements incl. into full cells, leave, relative moves along connection keys, cell-attribute writes, layer "
-        "writes, fill, add/remove layer), a copy (deepcopy or pickle, of the space or of the model holding it), then 4-14 "
-        "further operations on either side incl. copies of copies; every side fully observed after every operation; "
+        "writes, fill, add/remove layer, FixedAgent placement, agent.remove(), user attributes on cells, removing the 'empty' "
+        "layer), a copy (deepcopy or pickle, of the space or of the model holding it), then 4-14 "
+        "further operations on either side incl. copies of copies; agent-set histories incl. forgetting all references + gc; "
+        "every side fully observed after every operation (cells, layers, connections, model registry incl. off-grid agents, "
+        "model pointers, model.grid, agent kinds, user attributes); "
         "non-trivial = contains a copy that succeeded and at least 2 later operations that changed something; "
         "distinct = by SHA1 of the history")
 TRUSTED_BASE = [
@@ -76,11 +79,20 @@ ASSUMPTIONS = [
     "a rejected move (cell full) is normalised by the driver to 'the agent is off the grid' because the state the rejected "
     "setter leaves behind is the subject of C06/C18 (DESIGN section 5 row 2), not of C19; a move to the agent's own "
     "current cell is not performed",
-    "instance attributes set by user code on cells, hand-made connections (Cell.connect/disconnect after construction) and "
-    "agents that are not in any cell are not part of the statement and are not observed on the copy",
+    "user attributes in the instance __dict__ of cells are observed (kept by Network/Voronoi cells, dropped by grid cells: "
+    "documented behaviour, C19_user_attrs_carried); hand-made connections (Cell.connect after construction) are never "
+    "carried (C19_handmade_connections_not_carried) and are not generated",
+    "a copy of a SPACE reaches the model object only through an agent standing on the grid; when no agent does, the "
+    "program gives the copied space a new empty model and the off-grid agents of the source are not expected on the copy",
+    "FixedAgent.remove() (which leaves the agent's cell pointer set, a C06 matter) is not performed; a removed agent keeps "
+    "its label in the program's table and can be placed again",
+    "an agent-set side whose model ever created an agent cannot be forgotten: Agent._ids (class-level, keyed by model) "
+    "keeps the model, whose registry keeps the agents",
     "values written to the bool layer 'empty' are 0/1; extra layers are int layers with small int values",
     "Voronoi capacities are observed as min(capacity, 99)",
-    "the grid's own property layer 'empty' is never removed (remove_property_layer('empty') is not performed)",
+    "remove_property_layer(name) for name = 'empty' is performed by the separate operation `delempty`; afterwards the "
+    "instance attribute cell.empty is excluded from the faithful / fresh comparisons (a grid copy drops it: "
+    "C19_remove_empty_copy_refuted) but stays in the correspondence",
 ]
 
 
@@ -561,6 +573,10 @@ def _abs(case, side):
         registry = [getattr(a, "vid", -1) for a in model._agents]
     except Exception:  # noqa: BLE001
         registry = [-99]
+    try:
+        api = [getattr(a, "vid", -1) for a in model.agents]
+    except Exception:  # noqa: BLE001
+        api = [-98]
     kinds = [1 if (fixed_cls is not None and isinstance(a, fixed_cls)) else 0 for c in cells for a in c._agents]
     ptr = 1
     for a in list(side.tab.values()) + [a for c in cells for a in c._agents]:
@@ -569,7 +585,7 @@ def _abs(case, side):
     gridptr = 1 if getattr(model, "grid", None) is sp else 0
     user = [[int(c.__dict__.get(f"u{n}", MISSING)) for n in USER_NAMES] for c in cells]
     return {"cells": out_cells, "conns": conns, "wired": wired, "empties": empties, "members": members,
-            "registry": registry, "kinds": kinds, "ptr": ptr, "gridptr": gridptr, "user": user}
+            "registry": registry, "api": api, "kinds": kinds, "ptr": ptr, "gridptr": gridptr, "user": user}
 
 
 def _world_obs(k, ab):
@@ -1006,12 +1022,17 @@ def _run_space(case):
                         f"after {op}: an agent of side {k} (a copy) has .model pointing to another model object than the copy's")
                 if not ab["gridptr"]:
                     add(i, "copy/model-grid-not-the-copy", f"after {op}: model.grid of side {k} (a copy) is not the copied space")
+                if ab["api"] != ab["registry"]:
+                    add(i, "copy/model-agents-differ-from-registry",
+                        f"after {op}: model.agents of side {k} (a copy) lists {ab['api']} but the model's registry holds {ab['registry']}")
             if k != touched and k < len(prev):
                 d = _cmp_abs(prev[k], ab)
                 if d:
                     add(i, "copy/not-independent", f"{op} (on side {touched}) changed {d} of side {k}")
             if k == touched and sides[k].twin is not None and kind != "copy":
                 d = _cmp_abs(_abs(case, sides[k].twin), ab)
+                if isgrid and "user" in d:
+                    d.remove("user")   # that grid cells drop user attributes is documented, not required by the statement
                 for aspect in d:
                     add(i, f"copy/not-fresh-{aspect}",
                         f"after {op} on side {k} (a copy) its {aspect} differ from those of a freshly built space in the same "
